@@ -163,7 +163,7 @@ PROPS = {
         "design_ref": "DESIGN.md §3.13, §4 C11",
     },
     "C19": {
-        "rules": ["ANNOTONLY", "PREDSONLY", "PEVAL", "TRAV@C19", "TRAVBASE", "NOPROV", "EXH"],
+        "rules": ["ANNOTONLY", "PREDSONLY", "PEVAL", "CHILDREN", "TRAV@C19", "TRAVBASE", "NOPROV", "EXH"],
         "thorough": [],
         "technique": "static analysis: written-field sets of the annotation primitives, constructor-argument identity for add_assertion, substitution/traversal completeness for partial_eval",
         "level_text": "Structural clauses: set_precision/set_memory/set_window, parallelize_loop, rename and make_instr write only annotation fields (type/mem/is_window/src_type/as_tensor, loop_mode, "
@@ -201,7 +201,7 @@ PROPS = {
         "design_ref": "DESIGN.md §3.15, §4 C03",
     },
     "C06": {
-        "rules": ["FWDTHREAD", "FWDHELPERS", "PATHIDX", "FWDPRESENT", "FWDWALK"],
+        "rules": ["FWDTHREAD", "FWDHELPERS", "PATHIDX", "FWDSIB", "FWDPRESENT", "FWDWALK"],
         "thorough": [],
         "technique": "static analysis: abstract interpretation of every rewrite with a type system over tree epochs (cursor/forwarder/tree, relative to the current tree); metavariable patterns for the shared multi-edit helpers and the provenance walk",
         "level_text": "Structural clauses, decided on every path of every editing function: each elementary edit acts on a cursor into the *current* tree (never a stale one), each edit's "
@@ -216,7 +216,7 @@ PROPS = {
         "design_ref": "DESIGN.md §3.12, §4 C06",
     },
     "C01": {
-        "rules": ["GUARD", "CONDSPEC", "PREDSPEC", "CHECKFORM", "CTXSHAPE", "EQVSHAPE", "ALIASCLOSED", "ZIPLEN", "NAMECONF", "FIELDS", "VERDICT", "VERDICTUSE", "LAYER", "EXH", "TRAV@C01", "TRAVBASE", "BYPASS"],
+        "rules": ["GUARD", "CONDSPEC", "PREDSPEC", "CHECKFORM", "CTXSHAPE", "EQVSHAPE", "ALIASCLOSED", "ZIPLEN", "NAMECONF", "FIELDS", "VERDICT", "VERDICTUSE", "LAYER", "CHILDREN", "EXH", "TRAV@C01", "TRAVBASE", "BYPASS"],
         "thorough": [],
         "technique": "static analysis: per-primitive obligation table decided by a must-analysis (dominance of side conditions over tree edits, with raising guards, flag assumptions and check-argument provenance), plus comparison/identity/verdict/layering/traversal rules",
         "level_text": "Structural clauses, decided for all programs and schedules from the source: every scheduling primitive reaches its tree edits only through the side conditions "
